@@ -23,6 +23,8 @@ def run(ctx):
     pool = dict((k, f) for k, f in rl.frame_pool())
     parts = [("ubx", pool["ubx"]), ("rtcm0", pool["rtcm0"]), ("nmea", pool["nmea"]), ("ubx0", pool["ubx0"])]
     streams.append((parts, b"".join(f for _, f in parts)))
+    seen = set()
+    streams = [(pt, st) for pt, st in streams if not (st in seen or seen.add(st))]      # one configuration per distinct stream
     cases = []
     for parts, s in streams:
         if len(s) > (160 if ctx.quick() else 400):
